@@ -60,6 +60,10 @@ type c15Clone struct {
 	// `other.y` of its own (other values than at the root).  Template-bearing fields are rendered against the
 	// context's data, i.e. its root: the clone holds the same texts as without those containers.
 	Nest bool `json:"nest,omitempty"`
+	// THE CLONING CONTEXT HAS A HISTORY (c15_hist.go): the executor in whose context the clone is made has executed
+	// define operations before — one per text the operation holds, each with a body of its own — and has ext action
+	// factories registered under the same texts.  The data is what it is without them: so is the clone.
+	Hist bool `json:"hist,omitempty"`
 }
 
 var c15PathSafeRe = regexp.MustCompile(`^[A-Za-z0-9_-]+(\.[A-Za-z0-9_-]+)*$`)
@@ -192,7 +196,7 @@ type c15FE struct {
 
 func init() {
 	register(&Prop{ID: "C15", Run: c15Run,
-		Rule: "operation types are enumerated by reflection from pipeline.OpSpec (recursively through pointed-to types); each is populated by kind (strings, *string, bool, []int, []string, maps, *ValOrRef / *AnyVal / ActionSpec / ChildActions decoded from YAML or built recursively) from a seed, cloned under a real ActionContext and compared field by field (nil/empty identified), bare and wrapped in OpSpec / ActionSpec / ChildActions — the wrapping value cloned directly and through a POINTER to it ((&spec).CloneWith(ctx), an equivalent entry point) —; slices are populated with 0..2 and with 3, 5, 6, 7, 9 elements; template cases put a template over the micro-fragment `{{ .x }}` into clone:\"template\" fields — the plain `pre-{{ .x }}-post` and (VALUE RANGE, per tagged field of every operation type and at random) texts with a `}}` BEFORE the first `{{` (nested JSON in a message, `odd}}key.{{ .x }}`), the action at the very beginning / end / twice, next to braces, dots, white space, non-ASCII text and line ends — with .x from {V, a.b, 7, empty, blank, `.`, `}}`, non-ASCII …}: the clone holds the text text/template renders (every `{{ .x }}` replaced, the rest literal); template-free texts are drawn from a pool that also holds paths beginning / ending with the separator or holding an empty segment (`.defaults`, `labels.`, `a..b`: an empty-named key is a key), names that differ from their cleaned / trimmed form, leading / trailing white space, letter-case twins, supplementary-plane characters, U+FFFD, syntax look-alikes, digit strings beyond 64 bits, the empty text, `}} {{`; configured-but-empty values (non-nil pointer to \"\" / false / 0 / empty slice, empty non-nil slices and maps) are populated per field, alone and next to all other fields; value-or-reference values are populated in both kinds and in the odd forms too (an immediate value that also has Ref set, a reference that also has Val set, an empty reference); template text also goes into text fields that are NOT tagged (string, *string, []string elements, *[]string elements, *ValOrRef: the clone may hold them verbatim or rendered) and every templated value is cloned twice under different data with a deep snapshot of the original (slice elements included) compared before/after, and the FIRST clone compared with what it was before the second one was made; FAILURE THEN SUCCESS: per text field of every operation type (and at random) the field holds a template that CANNOT be rendered — it parses and fails while it is being executed, after it has produced output (field of a scalar, undefined associated template, sprig's fail, index of a missing key; short and longer than 64 bytes), or it does not parse — while the other template fields hold templates that render, and/or the clone is preceded, in the same context, by the clone of another operation whose template cannot be rendered: the unrenderable text is kept as it is, every other field holds exactly the rendered text, and a plain log operation cloned afterwards holds its rendered message; exec cases run data-only specs (set, patch, template, log, abort, define+call, loop, forEach) as original and clone on equal data (the clone first: the original must still be what it was after the clone ran) and as forEach bodies; vor cases take one value-or-reference — decoded scalar, decoded {ref: …}, composite literal with Ref AND Val, decoded reference with Val set; Ref / Val from {empty, path of a leaf, missing path, `{{ .x }}` with .x possibly empty} (small scope exhaustively, then random) — on its own ((*ValOrRef).CloneWith) and as every *ValOrRef field of every operation type found by reflection, bare / in OpSpec / in ActionSpec: the clone is compared field by field (the unexported kind flag included; reflect.DeepEqual with the original when template-free), resolved on data where the path named by Ref holds something else than Val, and executed (export: which files are written with what content, log lines; forEach over a query: log lines) against the original; feach cases run a forEach over 2-3 items whose body (log, set, template, patch, exec `true` with an argument list, in operations or in a steps child) uses `{{ .<variable> }}` and compare outcome, data and logs with a fresh copy of the body cloned+executed per item, and with a second run of the same forEach value. ROUND 6, SYNTAX LOOK-ALIKES AND SHAPES: trees held by an operation (any-values, set data, call / ext arguments; in clone, exec and nested action cases) also have KEYS that look like syntax of a neighbouring notation — dotted paths (`app.kubernetes.io/name`, `a..b`, `.lead`, `trail.`), index groups (`l[0]`, `m[1].k`), JSON pointers and their escapes (`/p`, `/a/b`, `~0`, `~1`), `k=v`, `*`, `%s`, `$x`, digits only, `-`, the empty key — and rare shapes (an empty collection followed by more content, lists directly in lists three levels deep with unequal lengths): a key is a key, the clone holds the same tree and executing it places the same tree; the value of .x is also text that LOOKS LIKE a template action which would render against the data (`{{ .other.y }}`, `v-{{ .other.y }}.yaml`, a comment action, a raw-string action, `{{ .x }}` itself), `%s`, `${x}`, `*`: the clone holds the text rendered ONCE — rendered text is text (a fixed table runs every operation type's template fields under each such value, bare and wrapped). ROUND 8, THE CONTEXT'S DATA IS MORE THAN x (Nest): in a third of the random clone cases and in a fixed table per operation type (its clone:\"template\" fields alone / next to all others, four template texts, bare and wrapped) the data of the cloning context also holds, at EVERY path-safe text of the expected clone (a path field, a file name that happens to be a path, a rendered `pre-V-post` / `V.name` / `name.V`), a container with an `x` and an `other.y` of its own: template-bearing fields are rendered against the context's data (its root), so the clone holds the same texts as without them. TREES (c15_tree.go): an action spec with 2-4 operations side by side in one OpSpec, in `steps` children and nested in forEach / loop / define bodies (two levels), whose text fields hold templates that READ the data (`{{ .x }}`, `{{ .other.y }}`, `{{ .cfg.name }}`), templates that also WRITE to the map they are rendered against (sprig set / unset on `.` or a nested map, the defaulting idiom) and literals, is cloned as ActionSpec / OpSpec / ChildActions in a real context; every operation of the tree, at every depth, is also cloned ON ITS OWN in a fresh context over equal data and the tree's clone must hold exactly that at the operation's place (what an operation's clone holds depends on the operation and the context's data, not on its neighbours or the order of the walk); original and context data are compared before / after; a fixed table has each writing template in one operation and a reading one in a sibling / child step / forEach body. Non-trivial: at least one field populated (tree: at least two operations). distinct = distinct canonical case JSON.",
+		Rule: "operation types are enumerated by reflection from pipeline.OpSpec (recursively through pointed-to types); each is populated by kind (strings, *string, bool, []int, []string, maps, *ValOrRef / *AnyVal / ActionSpec / ChildActions decoded from YAML or built recursively) from a seed, cloned under a real ActionContext and compared field by field (nil/empty identified), bare and wrapped in OpSpec / ActionSpec / ChildActions — the wrapping value cloned directly and through a POINTER to it ((&spec).CloneWith(ctx), an equivalent entry point) —; slices are populated with 0..2 and with 3, 5, 6, 7, 9 elements; template cases put a template over the micro-fragment `{{ .x }}` into clone:\"template\" fields — the plain `pre-{{ .x }}-post` and (VALUE RANGE, per tagged field of every operation type and at random) texts with a `}}` BEFORE the first `{{` (nested JSON in a message, `odd}}key.{{ .x }}`), the action at the very beginning / end / twice, next to braces, dots, white space, non-ASCII text and line ends — with .x from {V, a.b, 7, empty, blank, `.`, `}}`, non-ASCII …}: the clone holds the text text/template renders (every `{{ .x }}` replaced, the rest literal); template-free texts are drawn from a pool that also holds paths beginning / ending with the separator or holding an empty segment (`.defaults`, `labels.`, `a..b`: an empty-named key is a key), names that differ from their cleaned / trimmed form, leading / trailing white space, letter-case twins, supplementary-plane characters, U+FFFD, syntax look-alikes, digit strings beyond 64 bits, the empty text, `}} {{`; configured-but-empty values (non-nil pointer to \"\" / false / 0 / empty slice, empty non-nil slices and maps) are populated per field, alone and next to all other fields; value-or-reference values are populated in both kinds and in the odd forms too (an immediate value that also has Ref set, a reference that also has Val set, an empty reference); template text also goes into text fields that are NOT tagged (string, *string, []string elements, *[]string elements, *ValOrRef: the clone may hold them verbatim or rendered) and every templated value is cloned twice under different data with a deep snapshot of the original (slice elements included) compared before/after, and the FIRST clone compared with what it was before the second one was made; FAILURE THEN SUCCESS: per text field of every operation type (and at random) the field holds a template that CANNOT be rendered — it parses and fails while it is being executed, after it has produced output (field of a scalar, undefined associated template, sprig's fail, index of a missing key; short and longer than 64 bytes), or it does not parse — while the other template fields hold templates that render, and/or the clone is preceded, in the same context, by the clone of another operation whose template cannot be rendered: the unrenderable text is kept as it is, every other field holds exactly the rendered text, and a plain log operation cloned afterwards holds its rendered message; exec cases run data-only specs (set, patch, template, log, abort, define+call, loop, forEach) as original and clone on equal data (the clone first: the original must still be what it was after the clone ran) and as forEach bodies; vor cases take one value-or-reference — decoded scalar, decoded {ref: …}, composite literal with Ref AND Val, decoded reference with Val set; Ref / Val from {empty, path of a leaf, missing path, `{{ .x }}` with .x possibly empty} (small scope exhaustively, then random) — on its own ((*ValOrRef).CloneWith) and as every *ValOrRef field of every operation type found by reflection, bare / in OpSpec / in ActionSpec: the clone is compared field by field (the unexported kind flag included; reflect.DeepEqual with the original when template-free), resolved on data where the path named by Ref holds something else than Val, and executed (export: which files are written with what content, log lines; forEach over a query: log lines) against the original; feach cases run a forEach over 2-3 items whose body (log, set, template, patch, exec `true` with an argument list, in operations or in a steps child) uses `{{ .<variable> }}` and compare outcome, data and logs with a fresh copy of the body cloned+executed per item, and with a second run of the same forEach value. ROUND 6, SYNTAX LOOK-ALIKES AND SHAPES: trees held by an operation (any-values, set data, call / ext arguments; in clone, exec and nested action cases) also have KEYS that look like syntax of a neighbouring notation — dotted paths (`app.kubernetes.io/name`, `a..b`, `.lead`, `trail.`), index groups (`l[0]`, `m[1].k`), JSON pointers and their escapes (`/p`, `/a/b`, `~0`, `~1`), `k=v`, `*`, `%s`, `$x`, digits only, `-`, the empty key — and rare shapes (an empty collection followed by more content, lists directly in lists three levels deep with unequal lengths): a key is a key, the clone holds the same tree and executing it places the same tree; the value of .x is also text that LOOKS LIKE a template action which would render against the data (`{{ .other.y }}`, `v-{{ .other.y }}.yaml`, a comment action, a raw-string action, `{{ .x }}` itself), `%s`, `${x}`, `*`: the clone holds the text rendered ONCE — rendered text is text (a fixed table runs every operation type's template fields under each such value, bare and wrapped). THE CLONING CONTEXT HAS A HISTORY (Hist; c15_hist.go): a fixed table per operation type (all fields template-free bare and in every wrap, the tagged fields with template text, each field alone) and random cases are cloned in the context of an executor that has, before, executed one define operation per text the operation under test holds (original and expected clone; each with a body of its own) and has ext action factories registered under the same texts — the data is untouched by that, so the clone holds what it holds in a fresh context. ROUND 8, THE CONTEXT'S DATA IS MORE THAN x (Nest): in a third of the random clone cases and in a fixed table per operation type (its clone:\"template\" fields alone / next to all others, four template texts, bare and wrapped) the data of the cloning context also holds, at EVERY path-safe text of the expected clone (a path field, a file name that happens to be a path, a rendered `pre-V-post` / `V.name` / `name.V`), a container with an `x` and an `other.y` of its own: template-bearing fields are rendered against the context's data (its root), so the clone holds the same texts as without them. TREES (c15_tree.go): an action spec with 2-4 operations side by side in one OpSpec, in `steps` children and nested in forEach / loop / define bodies (two levels), whose text fields hold templates that READ the data (`{{ .x }}`, `{{ .other.y }}`, `{{ .cfg.name }}`), templates that also WRITE to the map they are rendered against (sprig set / unset on `.` or a nested map, the defaulting idiom) and literals, is cloned as ActionSpec / OpSpec / ChildActions in a real context; every operation of the tree, at every depth, is also cloned ON ITS OWN in a fresh context over equal data and the tree's clone must hold exactly that at the operation's place (what an operation's clone holds depends on the operation and the context's data, not on its neighbours or the order of the walk); original and context data are compared before / after; a fixed table has each writing template in one operation and a reading one in a sibling / child step / forEach body. Non-trivial: at least one field populated (tree: at least two operations). distinct = distinct canonical case JSON.",
 		Assumptions: []string{"text/template + sprig is an external library: the model renders only the micro-fragment `{{ .x }}`; template-free = no `{{` … `}}` pair in any string (possiblyTemplate is false)",
 			"helpers safeRenderStrPointer/safeRenderStrSlice/safeCopyIntSlice/safeCloneValOrRef are classified by name by the extractor; their behaviour is validated only by this harness",
 			"operations with OS effects (exec, templateFile, import, export, env, ext, html2dom) are cloned and compared but not executed — except exec of the program `true` (no output, no files) in feach cases and export in vor cases (into a scratch directory under .work, which is also the working directory while the operation runs)"}})
@@ -889,6 +893,49 @@ func c15Run(c *Ctx) {
 	c15RunLook(c, names, types)
 	c15RunNest(c, names, types) // the context's data holds containers where the operation's texts point (below)
 	c15RunTree(c)               // trees of several operations with reading / writing templates (c15_tree.go)
+	c15RunHist(c, names, types) // the cloning context has a history (c15_hist.go)
+}
+
+// c15RunHist: per operation type a fixed table — all fields template-free, bare and wrapped; the tagged fields with
+// template text; each field alone — then random cases, all cloned in the context of an executor with a history.
+func c15RunHist(c *Ctx, names []string, types map[string]reflect.Type) {
+	r := c.Rng
+	wraps := []string{"", "opspec", "action", "children"}
+	for _, n := range names {
+		c.Tick()
+		t := types[n]
+		var all, tagged []string
+		for i := 0; i < t.NumField(); i++ {
+			all = append(all, t.Field(i).Name)
+			if t.Field(i).Tag.Get("clone") == "template" {
+				tagged = append(tagged, t.Field(i).Name)
+			}
+		}
+		for _, w := range wraps {
+			c.Do("clone", c15Clone{Op: n, Fields: all, Seed: r.Int63n(1 << 30), X: "V", Wrap: w, Hist: true})
+		}
+		if len(tagged) > 0 {
+			c.Do("clone", c15Clone{Op: n, Fields: all, Seed: r.Int63n(1 << 30), Tpl: tagged, X: pick(r, []string{"V", "a.b", "7"}), Wrap: pick(r, wraps), Hist: true})
+		}
+		for _, f := range all {
+			c.Do("clone", c15Clone{Op: n, Fields: []string{f}, Seed: r.Int63n(1 << 30), X: "V", Hist: true})
+		}
+	}
+	for i := 0; i < c.N(200); i++ {
+		c.Tick()
+		n := pick(r, names)
+		t := types[n]
+		var fs, tpl []string
+		for j := 0; j < t.NumField(); j++ {
+			if r.Intn(4) != 0 {
+				fs = append(fs, t.Field(j).Name)
+				if t.Field(j).Tag.Get("clone") == "template" && r.Intn(3) == 0 {
+					tpl = append(tpl, t.Field(j).Name)
+				}
+			}
+		}
+		c.Do("clone", c15Clone{Op: n, Fields: fs, Seed: r.Int63n(1 << 30), Tpl: tpl, X: pick(r, c15Xs), Wrap: pick(r, wraps), Hist: true})
+	}
 }
 
 // c15RunLook (round 6): SYNTAX LOOK-ALIKES, smallest cases.  (a) the value of .x is itself text that looks like a
@@ -1325,8 +1372,17 @@ func c15EvalClone(c *Ctx, p c15Clone) {
 			}
 		}
 		var preMsg, probeMsg string
+		withCtx := func(f func(ctx pipeline.ActionContext) error) { _ = c15WithCtx(data, nil, f) }
+		if p.Hist {
+			names := c15HistNames(reflect.ValueOf(orig), c15Build(p, opT, strings.ReplaceAll(tplText, "{{ .x }}", x)))
+			withCtx = func(f func(ctx pipeline.ActionContext) error) {
+				if n, _ := c15WithCtxHist(data, names, f); n > 0 {
+					c.Dist("clone:context-has-a-history(callables registered under the operation's texts)")
+				}
+			}
+		}
 		out, txt = guard(func() {
-			_ = c15WithCtx(data, nil, func(ctx pipeline.ActionContext) error {
+			withCtx(func(ctx pipeline.ActionContext) error {
 				if p.Pre > 0 {
 					// ANOTHER operation, cloned first: its template fails half way through (or does not parse)
 					if pc, ok := (&pipeline.LogOp{Message: c15BadText(p.Pre - 1)}).CloneWith(ctx).(*pipeline.LogOp); ok && pc != nil {
